@@ -330,6 +330,32 @@ func C02(run *report.Run) {
 		})
 		run.Parts = append(run.Parts, map[string]interface{}{"config": pl.cfg.Name, "bases": len(bases), "captures": pl.captures, "continuation_len": pl.L, "all_values": pl.allVals, "bases_are_persisted_versions": pl.versions == 1})
 	}
+	// a free two-slot search from the empty world, as a net for combinations the fan-out shape does not anticipate
+	freeDepth := 5
+	if run.Thorough() {
+		freeDepth = 7
+	}
+	for _, fc := range []*world.Config{world.UintCfg(2, ulist(1, 2, 4), 1, B, "big"), world.UintCfg(2, ulist(1, 2, 4), 1, M, "tiny1")} {
+		ops := c02Ops(fc, 2, true)
+		ops = append(ops, world.Op{Kind: world.OpLoadNoCache, A: 1, B: 0}, world.Op{Kind: world.OpFlushCache}, world.Op{Kind: world.OpCursor, A: 0}, world.Op{Kind: world.OpKeep, A: 0, B: 0})
+		e := &explore.Explorer{Cfg: fc, Ops: ops, Mon: &c02Mon{}, Reduced: true, MaxDepth: freeDepth, MaxStates: 400000}
+		if !world.HookAvailable {
+			e.MaxDepth = 3
+		}
+		e.Run()
+		if e.HarnessErr != nil {
+			run.HarnessError("free search %s: %v", fc.Name, e.HarnessErr)
+		}
+		run.States += e.States
+		run.Transitions += e.Transitions
+		if !e.BoundDone && !e.Exhaustive {
+			run.Exhaustive = false
+		}
+		for _, f := range e.Findings {
+			run.Add(report.Violation{Sig: f.Sig + "|free-search", What: f.What, Detail: f.Detail, Config: fc.Name, Check: "C02", History: fc.DescribeHist(f.Hist), Replay: map[string]interface{}{"config": fc.Name, "ops": f.Hist}, Count: f.Count})
+		}
+		run.Parts = append(run.Parts, map[string]interface{}{"part": "free two-slot search from the empty world", "config": fc.Name, "depth": e.Depth, "states": e.States, "transitions": e.Transitions, "all_histories_up_to_depth_bound": e.BoundDone, "alphabet": len(ops)})
+	}
 	run.Validated = run.Transitions
 	run.Extra["families"] = families
 	run.AddSample(map[string]interface{}{"base": "every state of the single-tree closure", "capture": "clone | keep root + LoadMast through the cache | ... without cache | cursor | clone of clone | two loads of one root",
